@@ -1,1 +1,492 @@
-//! Reference numerics (filled in below).
+//! Reference numerics for the oracles. Boring, slow, obviously right; shares no code with the
+//! library under test. Matrices are `Vec<Vec<f64>>` in row-major order (`Mat`), or `Vec<Vec<i128>>`
+//! for exact integer arithmetic.
+
+pub type Mat = Vec<Vec<f64>>;
+pub type IMat = Vec<Vec<i128>>;
+
+pub fn zeros(r: usize, c: usize) -> Mat {
+    vec![vec![0.0; c]; r]
+}
+
+pub fn eye(n: usize) -> Mat {
+    let mut m = zeros(n, n);
+    for i in 0..n {
+        m[i][i] = 1.0;
+    }
+    m
+}
+
+pub fn shape(a: &Mat) -> (usize, usize) {
+    (a.len(), if a.is_empty() { 0 } else { a[0].len() })
+}
+
+pub fn transpose(a: &Mat) -> Mat {
+    let (r, c) = shape(a);
+    let mut t = zeros(c, r);
+    for i in 0..r {
+        for j in 0..c {
+            t[j][i] = a[i][j];
+        }
+    }
+    t
+}
+
+pub fn matmul(a: &Mat, b: &Mat) -> Mat {
+    let (r, k) = shape(a);
+    let (k2, c) = shape(b);
+    assert_eq!(k, k2, "oracle matmul shape");
+    let mut m = zeros(r, c);
+    for i in 0..r {
+        for j in 0..c {
+            let mut s = 0.0;
+            for l in 0..k {
+                s += a[i][l] * b[l][j];
+            }
+            m[i][j] = s;
+        }
+    }
+    m
+}
+
+pub fn sub(a: &Mat, b: &Mat) -> Mat {
+    assert_eq!(shape(a), shape(b), "oracle sub shape");
+    a.iter().zip(b).map(|(x, y)| x.iter().zip(y).map(|(p, q)| p - q).collect()).collect()
+}
+
+pub fn scale(a: &Mat, s: f64) -> Mat {
+    a.iter().map(|r| r.iter().map(|x| x * s).collect()).collect()
+}
+
+pub fn max_abs(a: &Mat) -> f64 {
+    a.iter().flat_map(|r| r.iter()).fold(0.0f64, |m, x| if x.is_nan() { f64::INFINITY } else { m.max(x.abs()) })
+}
+
+pub fn fro(a: &Mat) -> f64 {
+    let m = max_abs(a);
+    if m == 0.0 || !m.is_finite() {
+        return m;
+    }
+    m * a.iter().flat_map(|r| r.iter()).map(|x| (x / m) * (x / m)).sum::<f64>().sqrt()
+}
+
+pub fn all_finite(a: &Mat) -> bool {
+    a.iter().all(|r| r.iter().all(|x| x.is_finite()))
+}
+
+pub fn diag(d: &[f64]) -> Mat {
+    let n = d.len();
+    let mut m = zeros(n, n);
+    for i in 0..n {
+        m[i][i] = d[i];
+    }
+    m
+}
+
+pub fn col(a: &Mat, j: usize) -> Vec<f64> {
+    a.iter().map(|r| r[j]).collect()
+}
+
+pub fn dot(a: &[f64], b: &[f64]) -> f64 {
+    a.iter().zip(b).map(|(x, y)| x * y).sum()
+}
+
+pub fn norm2(a: &[f64]) -> f64 {
+    let m = a.iter().fold(0.0f64, |m, x| m.max(x.abs()));
+    if m == 0.0 || !m.is_finite() {
+        return m;
+    }
+    m * a.iter().map(|x| (x / m) * (x / m)).sum::<f64>().sqrt()
+}
+
+/// max |(AᵀA − I)_{ij}| : departure of the columns of A from orthonormality
+pub fn orth_defect(a: &Mat) -> f64 {
+    let g = matmul(&transpose(a), a);
+    let n = g.len();
+    max_abs(&sub(&g, &eye(n)))
+}
+
+// ------------------------------------------------------------------------------------------------
+// exact integer linear algebra (fraction-free Bareiss elimination, i128)
+
+pub fn to_imat(a: &Mat) -> Option<IMat> {
+    a.iter()
+        .map(|r| r.iter().map(|x| if x.fract() == 0.0 && x.abs() < 1e15 { Some(*x as i128) } else { None }).collect::<Option<Vec<_>>>())
+        .collect()
+}
+
+/// Exact determinant of a square integer matrix.
+pub fn idet(a: &IMat) -> i128 {
+    let n = a.len();
+    if n == 0 {
+        return 1;
+    }
+    let mut m = a.clone();
+    let mut sign = 1i128;
+    let mut prev = 1i128;
+    for k in 0..n - 1 {
+        if m[k][k] == 0 {
+            match (k + 1..n).find(|&i| m[i][k] != 0) {
+                Some(i) => {
+                    m.swap(k, i);
+                    sign = -sign;
+                }
+                None => return 0,
+            }
+        }
+        for i in k + 1..n {
+            for j in k + 1..n {
+                m[i][j] = (m[i][j] * m[k][k] - m[i][k] * m[k][j]) / prev;
+            }
+        }
+        prev = m[k][k];
+    }
+    sign * m[n - 1][n - 1]
+}
+
+fn gcd(a: i128, b: i128) -> i128 {
+    let (mut a, mut b) = (a.abs(), b.abs());
+    while b != 0 {
+        let t = a % b;
+        a = b;
+        b = t;
+    }
+    a
+}
+
+/// Exact reduced row echelon form over the rationals, kept as integer rows (each row scaled to be
+/// primitive). Returns (rref rows, pivot columns).
+pub fn irref(a: &IMat) -> (IMat, Vec<usize>) {
+    let r = a.len();
+    let c = if r == 0 { 0 } else { a[0].len() };
+    let mut m = a.clone();
+    let mut pivots = Vec::new();
+    let mut row = 0;
+    for colj in 0..c {
+        if row >= r {
+            break;
+        }
+        let Some(p) = (row..r).find(|&i| m[i][colj] != 0) else { continue };
+        m.swap(row, p);
+        for i in 0..r {
+            if i != row && m[i][colj] != 0 {
+                let (f, g) = (m[row][colj], m[i][colj]);
+                for j in 0..c {
+                    m[i][j] = m[i][j] * f - m[row][j] * g;
+                }
+                let d = m[i].iter().fold(0, |d, x| gcd(d, *x));
+                if d > 1 {
+                    m[i].iter_mut().for_each(|x| *x /= d);
+                }
+            }
+        }
+        let d = m[row].iter().fold(0, |d, x| gcd(d, *x));
+        if d > 1 {
+            m[row].iter_mut().for_each(|x| *x /= d);
+        }
+        pivots.push(colj);
+        row += 1;
+    }
+    (m, pivots)
+}
+
+pub fn irank(a: &IMat) -> usize {
+    irref(a).1.len()
+}
+
+/// Integer basis of the null space {x : A x = 0}.
+pub fn inullspace(a: &IMat) -> Vec<Vec<i128>> {
+    let c = if a.is_empty() { 0 } else { a[0].len() };
+    let (m, piv) = irref(a);
+    let free: Vec<usize> = (0..c).filter(|j| !piv.contains(j)).collect();
+    let mut basis = Vec::new();
+    for &f in &free {
+        // x_f = L (lcm of pivot entries), x_piv = -m[row][f] * L / m[row][piv]
+        let mut l = 1i128;
+        for (row, &p) in piv.iter().enumerate() {
+            if m[row][f] != 0 {
+                let d = m[row][p].abs();
+                l = l / gcd(l, d) * d;
+            }
+        }
+        let mut x = vec![0i128; c];
+        x[f] = l;
+        for (row, &p) in piv.iter().enumerate() {
+            x[p] = -m[row][f] * l / m[row][p];
+        }
+        basis.push(x);
+    }
+    basis
+}
+
+/// Exact inverse as (adjugate, determinant): A⁻¹ = adj / det. None when singular.
+pub fn iinverse(a: &IMat) -> Option<(IMat, i128)> {
+    let n = a.len();
+    let det = idet(a);
+    if det == 0 {
+        return None;
+    }
+    let mut adj = vec![vec![0i128; n]; n];
+    for i in 0..n {
+        for j in 0..n {
+            let minor: IMat = (0..n).filter(|&r| r != i).map(|r| (0..n).filter(|&c| c != j).map(|c| a[r][c]).collect()).collect();
+            let s = if (i + j) % 2 == 0 { 1 } else { -1 };
+            adj[j][i] = s * idet(&minor);
+        }
+    }
+    Some((adj, det))
+}
+
+/// Exact infinity-norm condition number ‖A‖∞‖A⁻¹‖∞ of an integer matrix.
+pub fn icond_inf(a: &IMat) -> Option<f64> {
+    let (adj, det) = iinverse(a)?;
+    let na = a.iter().map(|r| r.iter().map(|x| x.abs()).sum::<i128>()).max().unwrap_or(0);
+    let ni = adj.iter().map(|r| r.iter().map(|x| x.abs()).sum::<i128>()).max().unwrap_or(0);
+    Some(na as f64 * ni as f64 / det.abs() as f64)
+}
+
+/// All leading principal minors of a square integer matrix.
+pub fn ileading_minors(a: &IMat) -> Vec<i128> {
+    (1..=a.len()).map(|k| idet(&a.iter().take(k).map(|r| r[..k].to_vec()).collect())).collect()
+}
+
+// ------------------------------------------------------------------------------------------------
+// floating-point references
+
+/// Cyclic Jacobi for a symmetric matrix: (eigenvalues in non-increasing order, eigenvectors as columns).
+pub fn jacobi_eig(a: &Mat) -> (Vec<f64>, Mat) {
+    let n = a.len();
+    let mut m = a.clone();
+    let mut v = eye(n);
+    for _sweep in 0..100 {
+        let mut off = 0.0;
+        for i in 0..n {
+            for j in 0..n {
+                if i != j {
+                    off += m[i][j] * m[i][j];
+                }
+            }
+        }
+        let scale: f64 = (0..n).map(|i| m[i][i] * m[i][i]).sum::<f64>() + off;
+        if off <= 1e-32 * scale || off == 0.0 {
+            break;
+        }
+        for p in 0..n {
+            for q in p + 1..n {
+                if m[p][q] == 0.0 {
+                    continue;
+                }
+                let theta = (m[q][q] - m[p][p]) / (2.0 * m[p][q]);
+                let t = theta.signum() / (theta.abs() + (theta * theta + 1.0).sqrt());
+                let t = if theta == 0.0 { 1.0 } else { t };
+                let c = 1.0 / (t * t + 1.0).sqrt();
+                let s = t * c;
+                for k in 0..n {
+                    let (akp, akq) = (m[k][p], m[k][q]);
+                    m[k][p] = c * akp - s * akq;
+                    m[k][q] = s * akp + c * akq;
+                }
+                for k in 0..n {
+                    let (apk, aqk) = (m[p][k], m[q][k]);
+                    m[p][k] = c * apk - s * aqk;
+                    m[q][k] = s * apk + c * aqk;
+                }
+                for k in 0..n {
+                    let (vkp, vkq) = (v[k][p], v[k][q]);
+                    v[k][p] = c * vkp - s * vkq;
+                    v[k][q] = s * vkp + c * vkq;
+                }
+            }
+        }
+    }
+    let mut idx: Vec<usize> = (0..n).collect();
+    idx.sort_by(|&i, &j| m[j][j].partial_cmp(&m[i][i]).unwrap_or(std::cmp::Ordering::Equal));
+    let d: Vec<f64> = idx.iter().map(|&i| m[i][i]).collect();
+    let mut vs = zeros(n, n);
+    for (newj, &oldj) in idx.iter().enumerate() {
+        for k in 0..n {
+            vs[k][newj] = v[k][oldj];
+        }
+    }
+    (d, vs)
+}
+
+/// Singular values (non-increasing) via the eigenvalues of the smaller Gram matrix computed by
+/// one-sided Jacobi (Hestenes) on the columns — accurate for small singular values too.
+pub fn singular_values(a: &Mat) -> Vec<f64> {
+    let (r, c) = shape(a);
+    let mut u = if r >= c { a.clone() } else { transpose(a) };
+    let (rr, cc) = shape(&u);
+    for _sweep in 0..100 {
+        let mut rotated = false;
+        for p in 0..cc {
+            for q in p + 1..cc {
+                let (mut alpha, mut beta, mut gamma) = (0.0, 0.0, 0.0);
+                for k in 0..rr {
+                    alpha += u[k][p] * u[k][p];
+                    beta += u[k][q] * u[k][q];
+                    gamma += u[k][p] * u[k][q];
+                }
+                if gamma == 0.0 || gamma.abs() <= 1e-16 * (alpha * beta).sqrt() {
+                    continue;
+                }
+                rotated = true;
+                let zeta = (beta - alpha) / (2.0 * gamma);
+                let t = if zeta == 0.0 { 1.0 } else { zeta.signum() / (zeta.abs() + (1.0 + zeta * zeta).sqrt()) };
+                let cs = 1.0 / (1.0 + t * t).sqrt();
+                let sn = cs * t;
+                for k in 0..rr {
+                    let (x, y) = (u[k][p], u[k][q]);
+                    u[k][p] = cs * x - sn * y;
+                    u[k][q] = sn * x + cs * y;
+                }
+            }
+        }
+        if !rotated {
+            break;
+        }
+    }
+    let mut s: Vec<f64> = (0..cc).map(|j| norm2(&col(&u, j))).collect();
+    s.sort_by(|a, b| b.partial_cmp(a).unwrap_or(std::cmp::Ordering::Equal));
+    s
+}
+
+/// 2-norm condition number (∞ when singular).
+pub fn cond2(a: &Mat) -> f64 {
+    let s = singular_values(a);
+    match (s.first(), s.last()) {
+        (Some(&hi), Some(&lo)) if lo > 0.0 => hi / lo,
+        _ => f64::INFINITY,
+    }
+}
+
+/// Solve the square system A x = b by Gaussian elimination with complete pivoting. None if singular.
+pub fn solve(a: &Mat, b: &[f64]) -> Option<Vec<f64>> {
+    let n = a.len();
+    let mut m: Mat = a.iter().zip(b).map(|(r, bi)| {
+        let mut r = r.clone();
+        r.push(*bi);
+        r
+    }).collect();
+    let mut colperm: Vec<usize> = (0..n).collect();
+    for k in 0..n {
+        let (mut pi, mut pj, mut best) = (k, k, 0.0);
+        for i in k..n {
+            for j in k..n {
+                if m[i][j].abs() > best {
+                    best = m[i][j].abs();
+                    pi = i;
+                    pj = j;
+                }
+            }
+        }
+        if best == 0.0 {
+            return None;
+        }
+        m.swap(k, pi);
+        if pj != k {
+            for row in m.iter_mut() {
+                row.swap(k, pj);
+            }
+            colperm.swap(k, pj);
+        }
+        for i in k + 1..n {
+            let f = m[i][k] / m[k][k];
+            if f != 0.0 {
+                for j in k..=n {
+                    m[i][j] -= f * m[k][j];
+                }
+            }
+        }
+    }
+    let mut y = vec![0.0; n];
+    for k in (0..n).rev() {
+        let mut s = m[k][n];
+        for j in k + 1..n {
+            s -= m[k][j] * y[j];
+        }
+        y[k] = s / m[k][k];
+    }
+    let mut x = vec![0.0; n];
+    for k in 0..n {
+        x[colperm[k]] = y[k];
+    }
+    Some(x)
+}
+
+/// Least-squares solution of min ‖A x − b‖ via the normal equations solved with complete pivoting
+/// (adequate for the small, well-conditioned reference problems it is used on).
+pub fn lstsq(a: &Mat, b: &[f64]) -> Option<Vec<f64>> {
+    let at = transpose(a);
+    let ata = matmul(&at, a);
+    let atb: Vec<f64> = at.iter().map(|r| dot(r, b)).collect();
+    solve(&ata, &atb)
+}
+
+pub fn logsumexp(xs: &[f64]) -> f64 {
+    let m = xs.iter().cloned().fold(f64::NEG_INFINITY, f64::max);
+    if !m.is_finite() {
+        return m;
+    }
+    m + xs.iter().map(|x| (x - m).exp()).sum::<f64>().ln()
+}
+
+pub fn mean(xs: &[f64]) -> f64 {
+    xs.iter().sum::<f64>() / xs.len() as f64
+}
+
+/// Two-pass population variance.
+pub fn var_pop(xs: &[f64]) -> f64 {
+    let m = mean(xs);
+    xs.iter().map(|x| (x - m) * (x - m)).sum::<f64>() / xs.len() as f64
+}
+
+pub fn eps_of(width: u8) -> f64 {
+    if width == 32 {
+        f32::EPSILON as f64
+    } else {
+        f64::EPSILON
+    }
+}
+
+/// Iterate over all vectors in `alphabet^len` (odometer, first coordinate slowest), calling `f`.
+pub fn for_each_tuple<T: Copy>(alphabet: &[T], len: usize, mut f: impl FnMut(&[T])) {
+    let k = alphabet.len();
+    if len == 0 {
+        f(&[]);
+        return;
+    }
+    let mut idx = vec![0usize; len];
+    let mut cur: Vec<T> = vec![alphabet[0]; len];
+    loop {
+        f(&cur);
+        let mut i = len;
+        loop {
+            if i == 0 {
+                return;
+            }
+            i -= 1;
+            idx[i] += 1;
+            if idx[i] < k {
+                cur[i] = alphabet[idx[i]];
+                break;
+            }
+            idx[i] = 0;
+            cur[i] = alphabet[0];
+        }
+    }
+}
+
+/// All permutations of 0..n in lexicographic order.
+pub fn permutations(n: usize) -> Vec<Vec<usize>> {
+    let mut out = Vec::new();
+    let mut p: Vec<usize> = (0..n).collect();
+    loop {
+        out.push(p.clone());
+        let Some(i) = (0..n.saturating_sub(1)).rev().find(|&i| p[i] < p[i + 1]) else { break };
+        let j = (i + 1..n).rev().find(|&j| p[j] > p[i]).unwrap();
+        p.swap(i, j);
+        p[i + 1..].reverse();
+    }
+    out
+}
